@@ -11,3 +11,67 @@ Theorem C16_every_referenced_global_is_defined : forall m line n,
   exists ns, mlookup m module_names = Some ns /\ In n ns.
 Proof. exact globals_defined. Qed.
 Print Assumptions C16_every_referenced_global_is_defined.
+
+(* ---- dynamic clauses, on the reader model (Model/Reader.v, Proofs/Reader*.v): `line_okb` is the shape of the
+   token trees the grammar returns, `RGood` the session invariant, `cfg_okb` a usable class configuration ---- *)
+From Coq Require Import List NArith ZArith.
+From DSD Require Import Base.Str Base.Errors Model.ComplexUtils Model.ReaderStr Model.Peg Model.Heap Model.Registry
+  Model.Reader Model.ReaderShape Proofs.RegInv Proofs.ReaderBasic Proofs.ReaderStmt Proofs.ReaderHeap Proofs.ReaderInv
+  Proofs.ReaderHoare Proofs.ReaderNoFault Proofs.ReaderThms Proofs.ReaderExamples.
+From DSDGen Require Import ReaderConsts.
+Import ListNotations.
+
+Theorem C16_session_starts_good : forall ct cd cs cc cm cr n, RGood ct cd cs cc cm cr (rinit (init ct n)).
+Proof. exact rgood_init. Qed.
+Print Assumptions C16_session_starts_good.
+
+Theorem C16_reader_keeps_session_good : forall ct cd cs cc cm cr,
+  cfg_okb ct cd cs cc cm cr = true ->
+  forall ig lines r, forallb line_okb lines = true -> RGood ct cd cs cc cm cr r ->
+  RGood ct cd cs cc cm cr (fst (read_pil ct (g cd cs cc cm cr) ig lines r)).
+Proof. exact reader_keeps_good. Qed.
+Print Assumptions C16_reader_keeps_session_good.
+
+Theorem C16_reader_no_fault : forall ct cd cs cc cm cr,
+  cfg_okb ct cd cs cc cm cr = true ->
+  forall ig lines r, forallb line_okb lines = true -> RGood ct cd cs cc cm cr r ->
+  forall r' k, read_pil ct (g cd cs cc cm cr) ig lines r = (r', Err k) -> is_fault k = false.
+Proof. exact reader_no_fault. Qed.
+Print Assumptions C16_reader_no_fault.
+
+Theorem C16_reader_no_fault_base_classes : forall ig lines,
+  forallb line_okb lines = true ->
+  forall r' k, read_pil base_ctable base_g ig lines (rinit (init base_ctable 0)) = (r', Err k) -> is_fault k = false.
+Proof. exact reader_no_fault_base. Qed.
+Print Assumptions C16_reader_no_fault_base_classes.
+
+Theorem C16_base_configuration_usable : cfg_of base_slots = Some base_g /\ cfg_okb base_ctable 0 2 1 3 4 = true.
+Proof. exact base_cfg_usable. Qed.
+Print Assumptions C16_base_configuration_usable.
+
+Theorem C16_ignored_reaction_decodes_to_other : forall line ri,
+  tnth line 0 = Ok (TStr tReaction) -> read_reaction line = Ok ri -> reaction_ignored ri = true ->
+  decode line = Ok SOther.
+Proof. exact ignored_reactions_survive. Qed.
+Print Assumptions C16_ignored_reaction_decodes_to_other.
+
+Theorem C16_ignored_line_survives : forall ct cd cs cc cm cr line acc r,
+  decode line = Ok SOther ->
+  read_one ct (g cd cs cc cm cr) None (TList line) acc r =
+    (with_st r (collect (r_st r)),
+     Ok (mkOut (po_domains acc) (po_strands acc) (po_complexes acc) (po_macrostates acc)
+               (po_det acc) (po_con acc) (po_other acc ++ [line]))).
+Proof. exact ignored_line_survives. Qed.
+Print Assumptions C16_ignored_line_survives.
+
+Theorem C16_failed_read_keeps_held : forall ct cd cs cc cm cr,
+  cfg_okb ct cd cs cc cm cr = true ->
+  forall ig lines r r' k, forallb line_okb lines = true -> RGood ct cd cs cc cm cr r ->
+  read_pil ct (g cd cs cc cm cr) ig lines r = (r', Err k) ->
+  roots (r_st r') = roots (r_st r) /\
+  forall s i, nth_error (roots (r_st r)) s = Some (Some i) ->
+    exists o o', hget (heap (r_st r)) i = Some o /\ hget (heap (r_st r')) i = Some o' /\ okill o o' /\
+                 o_live o' = true /\ Registered (r_st r') i o'.
+Proof. exact failed_read_keeps_held. Qed.
+Print Assumptions C16_failed_read_keeps_held.
+
